@@ -1,5 +1,5 @@
 //! C05 (third part) — byte-offset slicing in the small backward-chaining parsers that the Verus units expr_eval / grl_slices do not
-//! (or only partly) put under contract: `backward::DisjunctionParser::{parse, contains_or}` (OR patterns), `backward::nested::Query::
+//! (or only partly) put under contract: `backward::DisjunctionParser::{parse, contains_or}` (OR patterns), `backward::nested::NestedQueryParser::
 //! {parse, has_nested}` (WHERE sub-queries), `backward::aggregation::parse_aggregate_query`, and `expression::evaluate_expression`.
 //! Reference (from the property statement): every call returns a value or an error — a panic is a violation.  Nothing is said about
 //! WHICH value is returned.
@@ -81,21 +81,21 @@ fn c05_disjunction_parser_search() -> (bool, String) {
 
 fn c05_nested_and_aggregate_parser_search() -> (bool, String) {
     use rust_rule_engine::backward::aggregation::parse_aggregate_query;
-    use rust_rule_engine::backward::nested::Query;
+    use rust_rule_engine::backward::nested::NestedQueryParser;
     with_silent_panics(|| {
         let (tried, bad) = enumerate(4, |s| {
             let a = s.to_string();
             quiet(move || {
-                let _ = Query::parse(&a);
-                let _ = Query::has_nested(&a);
+                let _ = NestedQueryParser::parse(&a);
+                let _ = NestedQueryParser::has_nested(&a);
                 let _ = parse_aggregate_query(&a);
                 let _ = parse_aggregate_query(&format!("count({}", a));
             })
             .is_ok()
         });
         match bad {
-            Some(s) => (true, format!("nested::Query::parse / has_nested / aggregation::parse_aggregate_query panicked on {:?} (or on \"count(\" + it)", s)),
-            None => (false, format!("{} strings of <= 4 tokens: nested::Query::parse, has_nested, parse_aggregate_query returned", tried)),
+            Some(s) => (true, format!("nested::NestedQueryParser::parse / has_nested / aggregation::parse_aggregate_query panicked on {:?} (or on \"count(\" + it)", s)),
+            None => (false, format!("{} strings of <= 4 tokens: nested::NestedQueryParser::parse, has_nested, parse_aggregate_query returned", tried)),
         }
     })
 }
